@@ -16,3 +16,10 @@ GROUPS += [
 GROUPS.append(dict(name='validate_encoder_layout', cls='B', tu='C10_enc_layout.c', entry='h_validate_encoder_layout', dfcc=False, canary='real', expect_canaries=2, unwind=7, timeout=1800,
     functions=['validate_encoder_layout', 'get_left_channel', 'get_right_channel', 'get_mono_channel'], bounds='<= 5 channels, <= 4 streams, mapping bytes symbolic',
     what='encoder layout validation accepts exactly the layouts whose streams all have their input channels'))
+for (_c, _s, _cp, _n, _tier) in ((3, 2, 1, 2, 'quick'), (4, 3, 1, 2, 'thorough'), (2, 2, 0, 3, 'thorough'), (5, 3, 2, 2, 'thorough')):
+    GROUPS.append(dict(name='ms_routing_c%ds%dp%dn%d' % (_c, _s, _cp, _n), cls='B', tu='C10_ms_routing.c', entry='h_ms_routing', dfcc=False, canary='real', expect_canaries=1, unwind=max(_c, _n, _s) * 2 + 3, timeout=1800, mem_gb=12, tier=_tier,
+        defines=['-U__SSE__', '-DVERIF_C=%d' % _c, '-DVERIF_S=%d' % _s, '-DVERIF_CP=%d' % _cp, '-DVERIF_N=%d' % _n], cex={'self': True},
+        functions=['opus_multistream_decode_native', 'opus_multistream_decode_float', 'opus_multistream_decode', 'opus_copy_channel_out_float', 'opus_copy_channel_out_short', 'get_left_channel', 'get_right_channel', 'get_mono_channel'],
+        trusted=['stub of the per-stream opus_decode_native producing a known distinct sample per (stream, side, index); stub sizes of the single-stream decoder'],
+        bounds='%d output channels, %d streams (%d coupled), %d samples per channel, any valid mapping (255 included), lost-packet call' % (_c, _s, _cp, _n),
+        what='routing theorem of the multistream decoder: every output channel carries the mapped stream and side bit for bit, silence for 255, nothing else written'))
